@@ -72,9 +72,16 @@ def correspondence(ctx):
 
 
 def search(ctx, deep=False):
-    fails = []
+    import traceback
+    fails, crashes = [], []
     for p in _parts():
-        fails += p.l2(ctx, deep) or []
+        try:
+            fails += p.l2(ctx, deep) or []
+        except Exception:          # keep searching in the other parts; a crash alone is still reported (fail-closed)
+            crashes.append({"part": p.PART, "what": "L2 search crashed", "input": None,
+                            "detail": traceback.format_exc()[-1500:], "klass": None})
+    if crashes and not [f for f in fails if f.get("klass") is None]:
+        fails += crashes
     # keep one failure per (part, what, klass); unknown-class failures first
     seen, out = set(), []
     for f in sorted(fails, key=lambda f: f.get("klass") is not None):
